@@ -33,10 +33,20 @@ def gen_case(rng, idx):
         outs = outs[:rng.randint(1, 2)]
         while sum(numel(prog.shapes[o]) for o in outs) > 12 and len(outs) > 1:
             outs.pop()
+        must = []
+        if idx % 4 == 2:
+            # two DISTINCT leaves sharing memory (a2 = a.detach().requires_grad_(): same data_ptr, same values),
+            # both used by the program and both requested: each is an input of its own
+            a = rng.choice(leaves)
+            a2 = prog.leaf(prog.shapes[a], [x.v for x in prog.exact[a].flat], True, alias=a)
+            outs = outs + [prog.op("sum", [prog.op("mul", [a2, a])])]
+            leaves = leaves + [a2]
+            must = [a, a2]
         m = sum(numel(prog.shapes[o]) for o in outs)
 
         def mk_call():
             ins = rng.sample(leaves, rng.randint(1, len(leaves)))
+            ins = ins + [x for x in must if x not in ins]
             return ("backward", {"tensors": outs, "inputs": ins, "k": rng.choice([None, 1, 2]), "retain": True,
                                  "agg": ajcheck.rand_agg(rng, m, 0.8)})
     else:
